@@ -21,12 +21,14 @@ Capable(p, c) == /\ (p \in {"json", "wsjson"} => c \notin {"p", "t"})
                  /\ (p = "thriftstruct" => c = "t")
 PipeOK(p, pp) == /\ (p \in {"thriftstruct", "wsjson"} => pp = "")
                  /\ (p = "wspb" => pp \in {"", "g"})
-Profiles == { [sessions |-> 1, gor |-> 1,  size |-> 0,     hold |-> 0],
-              [sessions |-> 2, gor |-> 4,  size |-> 255,   hold |-> 3],
-              [sessions |-> 1, gor |-> 16, size |-> 4096,  hold |-> 3],
-              [sessions |-> 3, gor |-> 4,  size |-> 70000, hold |-> 0],
-              [sessions |-> 2, gor |-> 4,  size |-> 256,   hold |-> 3],
-              [sessions |-> 1, gor |-> 4,  size |-> 1,     hold |-> 3] }
+Profiles == { [sessions |-> 1, gor |-> 1,  size |-> 0,     hold |-> 0, barrier |-> FALSE],
+              [sessions |-> 2, gor |-> 4,  size |-> 255,   hold |-> 3, barrier |-> FALSE],
+              [sessions |-> 1, gor |-> 16, size |-> 4096,  hold |-> 3, barrier |-> FALSE],
+              [sessions |-> 3, gor |-> 4,  size |-> 70000, hold |-> 0, barrier |-> FALSE],
+              [sessions |-> 2, gor |-> 4,  size |-> 256,   hold |-> 3, barrier |-> FALSE],
+              [sessions |-> 1, gor |-> 4,  size |-> 1,     hold |-> 3, barrier |-> FALSE],
+              \* all goroutines of the session issue their next operation at the same instant (released from a barrier)
+              [sessions |-> 1, gor |-> 32, size |-> 16,    hold |-> 0, barrier |-> TRUE] }
 Cells == {c \in [proto : Protos, codec : Codecs, pipe : Pipes, prof : Profiles] : Capable(c.proto, c.codec) /\ PipeOK(c.proto, c.pipe)}
 
 VARIABLES cell, done
@@ -38,6 +40,6 @@ Spec == Init /\ [][Run]_vars
 CapOK == Capable(cell.proto, cell.codec) /\ PipeOK(cell.proto, cell.pipe)
 Emit == Export = "" \/
         Serialize(ToJson([proto |-> cell.proto, codec |-> cell.codec, pipe |-> cell.pipe, sessions |-> cell.prof.sessions,
-                          gor |-> cell.prof.gor, size |-> cell.prof.size, hold |-> cell.prof.hold]) \o "\n", Export,
+                          gor |-> cell.prof.gor, size |-> cell.prof.size, hold |-> cell.prof.hold, barrier |-> cell.prof.barrier]) \o "\n", Export,
                   [format |-> "TXT", charset |-> "UTF-8", openOptions |-> <<"WRITE", "CREATE", "APPEND">>]).exitValue = 0
 =============================================================================
